@@ -401,8 +401,8 @@ def gen_scope(rng) -> dict[str, Any]:
 
 
 PATH_DATA = {
-    "d": {"a": {"b": [1, 2, {"c": "deep"}], "size": "keysize"}, "list": ["p", "q", "r"], "x y": "spaced", "first": "keyfirst", "s": "hello", "e": [], "n": None, "0": "zero-key", "t": True},
-    "xs": [10, 20, 30], "s": "hello", "k": "list", "i": 1, "neg": -1, "key": "x y", "h": {"z": 1, "y": 2}, "es": "", "f": False,
+    "d": {"a": {"b": [1, 2, {"c": "deep"}], "size": "keysize"}, "list": ["p", "q", "r"], "x y": "spaced", "first": "keyfirst", "s": "hello", "e": [], "n": None, "0": "zero-key", "t": True, "size": "topsize"},
+    "xs": [10, 20, 30], "s": "hello", "k": "list", "i": 1, "neg": -1, "key": "x y", "h": {"z": 1, "y": 2, "last": "keylast", "size": 0}, "es": "", "f": False,
 }
 
 
@@ -422,7 +422,28 @@ def gen_path(rng) -> dict[str, Any]:
     return {"kind": "path", "segs": segs, "data": V.enc(PATH_DATA), "flags": flags, "async": rng.random() < 0.15}
 
 
+SEGS = ["a", "b", "c", "list", "x y", "size", "first", "last", "s", "e", "n", "z", "nope", 0, 1, 2, -1, -3, 5, ["k"], ["i"], ["neg"], ["key"], ["d", "s"], ["nope"], "0", "t"]
+
+
+def enum_paths(ctx: core.Ctx):
+    """Every path of one segment below every root, and of two segments below the hashes, sync and async, with both string flags."""
+    k = 0
+    for root in ["d", "xs", "s", "h", "es", "nope", "f"]:
+        for s1 in SEGS:
+            tails: list = [[]]
+            if root in ("d", "h"):
+                tails += [[s2] for s2 in ("size", "first", "last", 0, -1, "b", ["i"], "nope")]
+            for tail in tails:
+                for is_async in (False, True):
+                    for flags in ({}, {"string_first_and_last": True, "string_sequences": True}):
+                        k += 1
+                        if k % ctx.nshards != ctx.shard:
+                            continue
+                        yield {"kind": "path", "segs": [root, s1] + tail, "data": V.enc(PATH_DATA), "flags": flags, "async": is_async}
+
+
 def cases(ctx: core.Ctx):
     rng = ctx.rng("cases")
+    yield from enum_paths(ctx)
     for i in range(ctx.budget(14000, 600_000)):
         yield gen_scope(rng) if i % 2 else gen_path(rng)
